@@ -306,7 +306,7 @@ class Runner:
         logs, order = parse_cases(os.path.join(d, "cases.tsv"))
         obs = parse_obs(os.path.join(d, "obs.out"))
         vids = list(logs[order[0]]["vars"].keys())
-        what = "r" if kind == "replies" else ("rdc" if dim == "compaction" else ("u" if dim == "localexpiry" else "rd"))
+        what = "u" if dim == "localexpiry" else ("r" if kind == "replies" else ("rdc" if dim == "compaction" else "rd"))
         fails, _ = judge(logs, order, obs, pairs=[(vids[1], vids[0], dim, what)])
         return fails, {v: obs.get(v) for v in vids}
 
@@ -344,6 +344,46 @@ def decode_log(line):
     return out
 
 
+def drop_requests(lines, drop):
+    """remove the requests with the given indexes from a (LOG, VAR, VAR) case with one request per call"""
+    f = lines[0].split("\t")
+    reqs = f[4].split(";")
+    keep = [r for i, r in enumerate(reqs) if i not in drop]
+    f[3], f[4] = str(len(keep)), ";".join(keep)
+    out = ["\t".join(f)]
+    for vl in lines[1:]:
+        v = vl.split("\t")
+        for col in (5, 6):                      # cut / sweep position
+            p = int(v[col])
+            if p >= 0:
+                v[col] = str(p - sum(1 for i in drop if i < p))
+        v[7] = "|".join("1" for _ in keep)
+        out.append("\t".join(v))
+    return out
+
+
+def py_shrink(R, L, f, tag, budget=60):
+    lines = [L["line"], L["vars"][f["a"]], L["vars"][f["b"]]]
+    if any(set(vl.split("\t")[7]) - set("1|") for vl in lines[1:]):
+        return lines, cmd_names(L["reqs"])     # not one request per lifetime: leave it
+    n = int(lines[0].split("\t")[3])
+    chunk = max(1, n // 2)
+    tries = 0
+    while chunk >= 1 and tries < budget:
+        i, progressed = 0, False
+        while i < n and tries < budget:
+            cand = drop_requests(lines, set(range(i, min(n, i + chunk))))
+            tries += 1
+            cf, _ = R.confirm(cand, f["dim"], f["kind"], tag + "-s")
+            if cf:
+                lines, n, progressed = cand, int(cand[0].split("\t")[3]), True
+            else:
+                i += chunk
+        if not progressed or chunk == 1:
+            chunk //= 2
+    return lines, cmd_names(lines[0].split("\t")[4])
+
+
 def process_failures(R, logs, fails, max_shrinks):
     """shrink, confirm and sign the failures; returns the oracle failure records for standard_verdict."""
     out, seen = [], {}
@@ -372,7 +412,12 @@ def process_failures(R, logs, fails, max_shrinks):
         per_dim[f["dim"]] = per_dim.get(f["dim"], 0) + 1
         L = logs[f["log"]]
         tag = "%s-%s" % (f["log"], f["dim"])
-        lines, names = R.shrink(L, f["a"], f["b"], f["kind"], tag)
+        if f["dim"] == "localexpiry":
+            # the oracle of this dimension looks at a restricted view (values that never had a TTL), which the
+            # Go shrinker does not know: shrink here, re-judging every candidate with the real oracle
+            lines, names = py_shrink(R, L, f, tag)
+        else:
+            lines, names = R.shrink(L, f["a"], f["b"], f["kind"], tag)
         cf, o = R.confirm(lines, f["dim"], f["kind"], tag)
         if not cf:
             # not reproducible after shrinking: fall back to the full log
